@@ -172,8 +172,12 @@ func (g *senGen) value(b *strings.Builder, depth int) {
 			if i > 0 {
 				g.sep(b)
 			}
-			if sim.Bool(g.t, "barekey") {
+			if k := sim.Intn(g.t, 5, "keykind"); k < 2 {
 				b.WriteString(senToken(g.t))
+			} else if k == 2 {
+				b.WriteByte('\'')
+				b.WriteString(strings.ReplaceAll(keyPool[sim.Intn(g.t, len(keyPool), "key")], "'", "x"))
+				b.WriteByte('\'')
 			} else {
 				b.WriteByte('"')
 				b.WriteString(keyPool[sim.Intn(g.t, len(keyPool), "key")])
